@@ -10,6 +10,7 @@ Eval(c) ==
   CASE c.op = "avp"      -> [bytes |-> EncAvp(c.avp), ok |-> InDomain(c.avp.val)]
     [] c.op = "msg"      -> [bytes |-> EncMsg(c.hdr, c.avps)]
     [] c.op = "answer"   -> [hdr |-> ToAnswerHdr(c.hdr)]
+    [] c.op = "payload"  -> [ok |-> PayloadOk(c.k, c.p)]
     [] c.op = "find"     -> [paths |-> [i \in 1..Len(c.paths) |-> Find(c.tree, c.paths[i], <<>>)]]
 
 ASSUME JsonSerialize(IOEnv.OUT, [i \in 1..Len(Cases) |-> Eval(Cases[i])])
